@@ -1580,3 +1580,247 @@ mod f06a {
         }));
     }
 }
+
+// ===========================================================================
+// Round 4 (appended): F17 - after close()/drop every connected peer must
+// observe end-of-stream
+// ===========================================================================
+
+mod f17 {
+    use super::*;
+    use crate::{PullSocket, PushSocket};
+
+    #[derive(Clone, Copy, Debug)]
+    enum End {
+        Close,
+        Drop,
+    }
+
+    async fn end_socket<S: Socket>(sock: S, how: End) {
+        match how {
+            End::Close => {
+                let errs = timeout(Duration::from_secs(3), sock.close())
+                    .await
+                    .expect("close() hung");
+                assert!(errs.is_empty(), "close() reported {errs:?}");
+            }
+            End::Drop => drop(sock),
+        }
+    }
+
+    /// Binds `sock` on loopback TCP and connects a raw scripted peer of type
+    /// `peer_type` that completes the handshake. Returns (port, established peer).
+    async fn bind_and_connect<S: Socket>(sock: &mut S, peer_type: &str) -> (u16, TcpStream) {
+        let port = match sock.bind("tcp://127.0.0.1:0").await.unwrap() {
+            crate::Endpoint::Tcp(_, port) => port,
+            other => panic!("unexpected endpoint {other}"),
+        };
+        let mut a = TcpStream::connect(("127.0.0.1", port)).await.unwrap();
+        scripted_handshake(&mut a, peer_type).await;
+        // let the accept task finish registering the peer with the backend
+        tokio::time::sleep(Duration::from_millis(100)).await;
+        (port, a)
+    }
+
+    /// A raw TCP client that connects and then says nothing. Returns once the
+    /// library's greeting has arrived, i.e. the socket's handshake task for
+    /// this connection is running (and parked waiting for our greeting).
+    async fn stalled_peer(port: u16) -> TcpStream {
+        let mut b = TcpStream::connect(("127.0.0.1", port)).await.unwrap();
+        let mut g = [0u8; 64];
+        timeout(Duration::from_secs(2), b.read_exact(&mut g))
+            .await
+            .expect("library never sent its greeting to the stalled peer")
+            .unwrap();
+        b
+    }
+
+    /// True if the peer's connection is released by the socket within
+    /// `within`: read returns 0 (FIN) or an error (RST). Data is skipped.
+    async fn sees_eof(s: &mut TcpStream, within: Duration) -> bool {
+        let deadline = tokio::time::Instant::now() + within;
+        let mut buf = [0u8; 4096];
+        loop {
+            match tokio::time::timeout_at(deadline, s.read(&mut buf)).await {
+                Ok(Ok(0)) | Ok(Err(_)) => return true,
+                Ok(Ok(_)) => continue,
+                Err(_) => return false,
+            }
+        }
+    }
+
+    /// One request/reply exchange between the raw REQ peer `a` and `rep`. The
+    /// request is already in the socket buffer when recv() is first polled.
+    async fn rep_exchange(rep: &mut RepSocket, a: &mut TcpStream) {
+        a.write_all(&[0x01, 0x00, 0x00, 0x03, b'r', b'e', b'q'])
+            .await
+            .unwrap();
+        a.flush().await.unwrap();
+        tokio::time::sleep(Duration::from_millis(100)).await;
+        let m = timeout(Duration::from_secs(2), rep.recv())
+            .await
+            .expect("request missing")
+            .unwrap();
+        assert_eq!(m.get(0).unwrap().as_ref(), b"req");
+        rep.send(ZmqMessage::from("rep")).await.unwrap();
+        assert_eq!(read_frame(a).await.unwrap(), (0x01, vec![]));
+        assert_eq!(read_frame(a).await.unwrap(), (0x00, b"rep".to_vec()));
+    }
+
+    // ---------------------------------------------------------------------
+    // F17a: a stalled handshake of ANOTHER connection keeps the backend (and
+    // through it the shared QueueInner with all read halves) alive
+    // ---------------------------------------------------------------------
+
+    /// Ends the socket while peer `b` is stalled mid-handshake and checks
+    /// that the established peer `a` is released. Before asserting, probes
+    /// whether `a` is released once `b` goes away (diagnosis, printed only).
+    async fn f17a_finish<S: Socket>(label: &str, sock: S, how: End, mut a: TcpStream, b: Option<TcpStream>) {
+        end_socket(sock, how).await;
+        let released = sees_eof(&mut a, Duration::from_secs(2)).await;
+        eprintln!(
+            "F17a {label} ({how:?}, stalled peer: {}): established peer saw EOF within 2 s: {released}",
+            b.is_some()
+        );
+        if !released {
+            if let Some(b) = b {
+                drop(b);
+                let after = sees_eof(&mut a, Duration::from_secs(1)).await;
+                eprintln!("F17a {label}: ... and after the stalled peer disconnected: EOF seen: {after}");
+            }
+        }
+        assert!(
+            released,
+            "{label}: the socket is gone ({how:?}) but its established peer saw no end-of-stream within 2 s"
+        );
+    }
+
+    #[tokio::test(flavor = "multi_thread", worker_threads = 2)]
+    async fn f17a_rep_close_with_stalled_handshake_peer_no_eof() {
+        let mut rep = RepSocket::new();
+        let (port, mut a) = bind_and_connect(&mut rep, "REQ").await;
+        rep_exchange(&mut rep, &mut a).await;
+        let b = stalled_peer(port).await;
+        f17a_finish("REP", rep, End::Close, a, Some(b)).await;
+    }
+
+    #[tokio::test(flavor = "multi_thread", worker_threads = 2)]
+    async fn f17a_rep_drop_with_stalled_handshake_peer_no_eof() {
+        let mut rep = RepSocket::new();
+        let (port, mut a) = bind_and_connect(&mut rep, "REQ").await;
+        rep_exchange(&mut rep, &mut a).await;
+        let b = stalled_peer(port).await;
+        f17a_finish("REP", rep, End::Drop, a, Some(b)).await;
+    }
+
+    #[tokio::test(flavor = "multi_thread", worker_threads = 2)]
+    async fn f17a_pull_drop_with_stalled_handshake_peer_no_eof() {
+        let mut pull = PullSocket::new();
+        let (port, mut a) = bind_and_connect(&mut pull, "PUSH").await;
+        a.write_all(&[0x00, 0x01, b'm']).await.unwrap();
+        tokio::time::sleep(Duration::from_millis(100)).await;
+        let m = timeout(Duration::from_secs(2), pull.recv())
+            .await
+            .expect("message missing")
+            .unwrap();
+        assert_eq!(m.get(0).unwrap().as_ref(), b"m");
+        let b = stalled_peer(port).await;
+        f17a_finish("PULL", pull, End::Drop, a, Some(b)).await;
+    }
+
+    /// CONTROL (expected to pass today): the REP scenario without any
+    /// stalled peer and without an abandoned recv().
+    #[tokio::test(flavor = "multi_thread", worker_threads = 2)]
+    async fn f17a_control_rep_without_stalled_peer_sees_eof() {
+        for how in [End::Close, End::Drop] {
+            let mut rep = RepSocket::new();
+            let (_port, mut a) = bind_and_connect(&mut rep, "REQ").await;
+            rep_exchange(&mut rep, &mut a).await;
+            f17a_finish("REP control", rep, how, a, None).await;
+        }
+    }
+
+    /// CONTROL (expected to pass today): a socket that does not read through
+    /// the fair queue (PUSH), WITH a stalled handshake peer.
+    #[tokio::test(flavor = "multi_thread", worker_threads = 2)]
+    async fn f17a_control_push_with_stalled_handshake_peer_sees_eof() {
+        for how in [End::Close, End::Drop] {
+            let mut push = PushSocket::new();
+            let (port, mut a) = bind_and_connect(&mut push, "PULL").await;
+            push.send(ZmqMessage::from("m")).await.unwrap();
+            assert_eq!(read_frame(&mut a).await.unwrap(), (0x00, b"m".to_vec()));
+            let b = stalled_peer(port).await;
+            f17a_finish("PUSH control", push, how, a, Some(b)).await;
+        }
+    }
+
+    // ---------------------------------------------------------------------
+    // F17b: reference cycle QueueInner -> stream -> I/O registration ->
+    // StreamWaker -> Arc<QueueInner> after a recv() that was polled and
+    // abandoned
+    // ---------------------------------------------------------------------
+
+    /// recv() polled once under a 50 ms timeout with nothing arriving, then
+    /// the socket is ended; the established peer must see EOF. Before
+    /// asserting, probes whether the peer is released as soon as it sends one
+    /// byte (which fires and thereby drops the stored waker; printed only).
+    async fn f17b_scenario<S: Socket + SocketRecv>(label: &str, mut sock: S, peer_type: &str, how: End) {
+        let (_port, mut a) = bind_and_connect(&mut sock, peer_type).await;
+        let r = timeout(Duration::from_millis(50), sock.recv()).await;
+        assert!(r.is_err(), "nothing was sent, recv() should have timed out");
+        end_socket(sock, how).await;
+        let released = sees_eof(&mut a, Duration::from_secs(2)).await;
+        eprintln!("F17b {label} ({how:?}): peer saw EOF within 2 s after an abandoned recv(): {released}");
+        if !released {
+            let _ = a.write_all(&[0x00]).await;
+            let after = sees_eof(&mut a, Duration::from_secs(1)).await;
+            eprintln!("F17b {label}: ... and after the peer sent one byte (fires the parked waker): released: {after}");
+        }
+        assert!(
+            released,
+            "{label}: recv() was polled once and abandoned; the socket is gone ({how:?}) but its peer saw no end-of-stream within 2 s"
+        );
+    }
+
+    #[tokio::test(flavor = "multi_thread", worker_threads = 2)]
+    async fn f17b_rep_drop_after_abandoned_recv_no_eof() {
+        f17b_scenario("REP", RepSocket::new(), "REQ", End::Drop).await;
+    }
+
+    #[tokio::test(flavor = "multi_thread", worker_threads = 2)]
+    async fn f17b_rep_close_after_abandoned_recv_no_eof() {
+        f17b_scenario("REP", RepSocket::new(), "REQ", End::Close).await;
+    }
+
+    #[tokio::test(flavor = "multi_thread", worker_threads = 2)]
+    async fn f17b_pull_drop_after_abandoned_recv_no_eof() {
+        f17b_scenario("PULL", PullSocket::new(), "PUSH", End::Drop).await;
+    }
+
+    #[tokio::test(flavor = "multi_thread", worker_threads = 2)]
+    async fn f17b_sub_drop_after_abandoned_recv_no_eof() {
+        f17b_scenario("SUB", SubSocket::new(), "PUB", End::Drop).await;
+    }
+
+    #[tokio::test(flavor = "multi_thread", worker_threads = 2)]
+    async fn f17b_dealer_drop_after_abandoned_recv_no_eof() {
+        f17b_scenario("DEALER", DealerSocket::new(), "ROUTER", End::Drop).await;
+    }
+
+    /// CONTROL (expected to pass today): REQ does not read through the fair
+    /// queue. send(), a recv() that is polled and abandoned, then drop/close.
+    #[tokio::test(flavor = "multi_thread", worker_threads = 2)]
+    async fn f17b_control_req_after_abandoned_recv_sees_eof() {
+        for how in [End::Close, End::Drop] {
+            let mut req = ReqSocket::new();
+            let (_port, mut a) = bind_and_connect(&mut req, "REP").await;
+            req.send(ZmqMessage::from("x")).await.unwrap();
+            let r = timeout(Duration::from_millis(50), req.recv()).await;
+            assert!(r.is_err());
+            end_socket(req, how).await;
+            let released = sees_eof(&mut a, Duration::from_secs(2)).await;
+            eprintln!("F17b REQ control ({how:?}): peer saw EOF within 2 s: {released}");
+            assert!(released, "REQ control ({how:?}): peer saw no end-of-stream");
+        }
+    }
+}
